@@ -197,7 +197,9 @@ func (s *streamHTTP) getCodec(mediaType string, cur protoreflect.Message) (Codec
 	}
 	codecType = mediaType
 	if c, ok := s.opts.codecs[codecType]; ok {
-		return c, nil
+		if _, isBody := c.(codecHTTPBody); !isBody {
+			return c, nil // the HttpBody codec is keyed by message name, not a media type
+		}
 	}
 	return nil, status.Errorf(codes.Internal, "no codec registered for content-type %q", mediaType)
 }
